@@ -16,6 +16,19 @@ func Build(n *Node, r *rand.Rand, shapes func(string)) secs2.Item {
 	switch n.Kind {
 	case 'E':
 		return secs2.NewEmptyItem()
+	case 'R':
+		shapes("R/decoded")
+		var it secs2.Item
+		var err error
+		if r.Intn(2) == 0 {
+			it, err = secs2.Decode(n.Bytes)
+		} else {
+			it, err = secs2.DecodeOwned(append([]byte(nil), n.Bytes...))
+		}
+		if err != nil {
+			panic("s2t.Build: raw bytes of an R node do not decode: " + err.Error())
+		}
+		return it
 	case 'L':
 		kids := make([]secs2.Item, 0, len(n.Kids)+2)
 		withNil := r.Intn(8) == 0
